@@ -1,0 +1,8 @@
+//go:build !verif
+// +build !verif
+
+package wire
+
+func verifTick(name string) {}
+
+func verifFlush() {}
